@@ -458,7 +458,7 @@ class Job:
                  expect=(), slices=(), domain="", timeout=300, no_pointer_check=False, defines=(),
                  bound=None, replay=None, functions=(), backend="sat:minisat(default)", unwind=None,
                  cxx_defines=(), note="", canary=True, property_id=None, extra_checks=True,
-                 nondet_static=False, cover_timeout=None, count="all"):
+                 nondet_static=False, cover_timeout=None, count="all", stub_variant=None):
         self.__dict__.update(locals())
         del self.__dict__["self"]
 
@@ -492,7 +492,7 @@ def run_job(job, workdir):
     if job.cxx is not None:
         with open(os.path.join(workdir, "slices.cpp"), "w") as f:
             f.write(job.cxx)
-        cmd = ["goto-cc", "-nostdinc", "-I", STUBS, "-DVERIF_CBMC"] + ["-D" + d for d in job.cxx_defines] + \
+        cmd = ["goto-cc", "-nostdinc"] + (["-I", os.path.join(STUBS, job.stub_variant)] if job.stub_variant else []) + ["-I", STUBS, "-DVERIF_CBMC"] + ["-D" + d for d in job.cxx_defines] + \
               ["-c", "slices.cpp", "-o", "slices.gb"]
         rc, out, _ = sh(cmd, workdir, 300, log)
         if rc != 0:
